@@ -252,6 +252,40 @@ impl ReceiverLinkD {
         }),
         final(self).rcv_settle_mode == old(self).rcv_settle_mode,
 //@@ end
+
+//@@ fn file=fe2o3-amqp/src/link/receiver_link.rs impl=`impl<T> ReceiverLink<T>` name=dispose_consecutive
+//@@ selfmut
+//@@ ret Result<(), DispositionError>
+//@@ param writer : &mut ChanSender<LinkFrame>
+//@@ subst `let mut lock = self.unsettled.write();` => `let mut lock = &mut self.unsettled;` rule=R4
+//@@ subst `lock.as_mut() .and_then(|map| map.swap_remove(&info.delivery_tag));` => `opt_swap_remove(&mut *lock, &info.delivery_tag);` rule=R15
+//@@ subst `lock.get_or_insert(OrderedMap::new()) .insert(info.delivery_tag.clone(), Some(state.clone()));` => `opt_insert(&mut *lock, info.delivery_tag.clone(), Some(state.clone()));` rule=R15
+//@@ subst `consecutive_infos.last().map(|el| el.delivery_id)` => `Some(consecutive_infos[consecutive_infos.len() - 1].delivery_id)` rule=R19
+//@@ subst `|_v0|` => `|_v0: ChanSendError|` rule=optional-R5
+//@@ spec
+    ensures
+        final(self).rcv_settle_mode == old(self).rcv_settle_mode,
+        consecutive_infos@.len() == 0 ==> r is Ok && final(writer).sent@ == old(writer).sent@ && final(self).unsettled == old(self).unsettled,
+        consecutive_infos@.len() > 0 ==> ({
+            let mode = if consecutive_infos@[0].rcv_settle_mode is Some { consecutive_infos@[0].rcv_settle_mode->Some_0 } else { old(self).rcv_settle_mode };
+            let will_settle = if settled is Some { settled->Some_0 } else { mode is First };                              // [C02.receiver.settle-mode]
+            let m1 = omap(final(self).unsettled);
+            &&& (r is Ok ==> final(writer).sent@ == old(writer).sent@.push(LinkFrame::Disposition(Disposition {
+                    role: Role::Receiver, first: consecutive_infos@[0].delivery_id, last: Some(consecutive_infos@[consecutive_infos@.len() - 1].delivery_id),
+                    settled: will_settle, state: Some(state), batchable })))                                               // [C02.receiver.range-disposition] a run of consecutive deliveries is disposed of by ONE disposition first..last covering exactly that run, with the outcome the application applied
+            &&& (r is Err ==> final(writer).sent@ == old(writer).sent@)
+            &&& (will_settle ==> forall|i: int| 0 <= i < consecutive_infos@.len() ==> !m1.contains_key(#[trigger] consecutive_infos@[i].delivery_tag))          // [C02.receiver.settled-forgets] every delivery of the run is forgotten when settled ...
+            &&& (!will_settle ==> forall|i: int| 0 <= i < consecutive_infos@.len() ==> m1.contains_key(#[trigger] consecutive_infos@[i].delivery_tag) && m1[consecutive_infos@[i].delivery_tag] == Some(state))   // [C02.receiver.second-keeps-unsettled] ... and every one is kept (with the outcome) in settle-second mode
+        }),
+//@@ loop 0 optional
+        invariant
+            self.rcv_settle_mode == old(self).rcv_settle_mode,
+            forall|i: int| 0 <= i < __it0.index@ ==> !omap(*lock).contains_key(#[trigger] consecutive_infos@[i].delivery_tag),
+//@@ loop 1 optional
+        invariant
+            self.rcv_settle_mode == old(self).rcv_settle_mode,
+            forall|i: int| 0 <= i < __it1.index@ ==> omap(*lock).contains_key(#[trigger] consecutive_infos@[i].delivery_tag) && omap(*lock)[consecutive_infos@[i].delivery_tag] == Some(state),
+//@@ end
 }
 
 // ---------------------------------------------------------------------------------------------
